@@ -8,12 +8,12 @@ type fsFile struct {
 	open    int
 	closed  int
 	created int
-	writes int
+	writes  int
 }
 
 type fsModel struct {
-	files map[string]*fsFile
-	order []string
-	ops   []string
+	files      map[string]*fsFile
+	order      []string
+	ops        []string
 	strictDirs bool
 }
